@@ -122,6 +122,37 @@ def ensure_target(flavour, src, extra_cxx=(), extra_ld=(), with_rc=True, name=No
     return out
 
 
+def ensure_fuzz_target(src, extra_cxx=(), extra_src=()):
+    """libFuzzer + ASan + UBSan target (clang); extra_src = pika sources compiled *into* the target so that
+    they are instrumented for coverage (the rest comes from the uninstrumented libpika.so of the rel flavour)."""
+    bdir = ensure_pika("rel")
+    name = os.path.splitext(os.path.basename(src))[0]
+    out = os.path.join(bdir, "vbin", name)
+    os.makedirs(os.path.dirname(out), exist_ok=True)
+    srcp = src if os.path.isabs(src) else os.path.join(VERIF, src)
+    extra = [x if os.path.isabs(x) else os.path.join(REPO, x) for x in extra_src]
+    cmd = (["clang++", "-std=c++20", "-g", "-O1", "-fsanitize=fuzzer,address,undefined", "-fno-sanitize-recover=undefined",
+            "-Wno-deprecated-declarations", "-pthread"] + DEFS + list(extra_cxx) + include_flags(bdir)
+           + ["-MMD", "-MF", out + ".d", srcp] + extra + ["-o", out, "-L" + os.path.join(bdir, "lib"),
+              "-Wl,-rpath," + os.path.join(bdir, "lib"), "-lpika", "-lfmt", "-lspdlog", "-lhwloc", "-latomic"])
+    sig = hashlib.sha1(" ".join(cmd).encode()).hexdigest()
+    with Lock("t-fuzz-" + name):
+        need = True
+        if os.path.exists(out) and os.path.exists(out + ".d") and os.path.exists(out + ".sig"):
+            if open(out + ".sig").read() == sig:
+                mt = os.path.getmtime(out)
+                deps = open(out + ".d").read().replace("\\\n", " ").split(":", 1)[1].split()
+                deps = [d for d in deps if d != "\\"]
+                deps.append(os.path.join(bdir, "lib", "libpika.so"))
+                deps += extra
+                need = any((not os.path.exists(d)) or os.path.getmtime(d) > mt for d in deps)
+        if need:
+            dt = run(cmd)
+            open(out + ".sig", "w").write(sig)
+            log(f"compiled fuzz target {name} in {dt:.1f}s")
+    return out
+
+
 if __name__ == "__main__":
     if len(sys.argv) >= 3 and sys.argv[1] == "ensure":
         for f in sys.argv[2:]:
